@@ -17,15 +17,44 @@ def run(prop, tier):
     return code
 
 
+def replay(prop, path):
+    """re-run, against the current /repo, the harness unit a stored counterexample belongs to, and show the stored counterexample"""
+    from . import runner
+    payload = json.load(open(path))
+    unit = payload.get('unit', '')
+    print('stored counterexample for %s unit %s:' % (prop, unit))
+    print(json.dumps({k: v for k, v in payload.items() if k in ('obligation', 'why', 'case', 'inputs')}, indent=1, default=str)[:3000])
+    os.environ['VERIF_TIER'] = os.environ.get('VERIF_TIER', 'quick')
+    if prop == 'C13':
+        os.environ['VERIF_ONLY'] = unit
+        return run(prop, os.environ['VERIF_TIER'])
+    mod = importlib.import_module('vf.%s' % prop.lower())
+    jobs = [j for j in mod.jobs('thorough') + mod.jobs('quick') if all(str(a) in unit for a in j[1] if not isinstance(a, bool))]
+    seen, sel = set(), []
+    for j in jobs:
+        k = (j[0].__name__, repr(j[1]))
+        if k not in seen:
+            seen.add(k); sel.append(j)
+    res = [r for r in runner.run_tasks(sel[:40]) if r.get('unit') == unit] if sel else []
+    bad = [r for r in res if r.get('status') == 'violation']
+    for r in bad:
+        for v in r['violations']:
+            print('REPRODUCED on the current tree: %s - %s' % (v['obligation']['name'], v['why']))
+    if not res:
+        print('unit not found among the harness jobs; nothing re-run')
+        return 3
+    if not bad:
+        print('not reproduced on the current tree (status: %s)' % ', '.join(r.get('status', '?') for r in res))
+    return 1 if bad else 0
+
+
 def main(argv):
     prop = argv[1]
     tier = os.environ.get('VERIF_TIER', 'quick')
     if '--tier' in argv:
         tier = argv[argv.index('--tier') + 1]
     if '--replay' in argv:
-        path = argv[argv.index('--replay') + 1]
-        mod = importlib.import_module('vf.%s' % prop.lower())
-        return mod.replay_file(path)
+        return replay(prop, argv[argv.index('--replay') + 1])
     out = {}
     t = threading.Thread(target=lambda: out.setdefault('code', run(prop, tier)))
     t.start(); t.join()
